@@ -21,7 +21,7 @@ VARIABLES l,        \* next line of the trace
           defs,     \* defining equations of derived LRA variables: [x, e]
           lraVis,   \* LRA variables whose meaning the driver knows (originals and derived)
           ovs,      \* object variables: [id, vals, lits]
-          seen,     \* C08: <<truth values, theory observables>> pairs seen since the last creation call
+          seen,     \* C08: <<truth values, theory observables, decisions>> triples seen since the last creation call
           last      \* observables of the previous line (change detection for the expensive checks)
 vars == <<l, n, models, decs, atoms, thOK, defs, lraVis, ovs, seen, last>>
 
@@ -196,6 +196,7 @@ DecsOK(ev) ==
     [] ev.e = "pop" -> decs # <<>> /\ ev.decs = SubSeq(decs, 1, Len(decs) - 1)
     [] ev.e = "propagate" -> SeqPrefix(ev.decs, decs)
     [] ev.e = "check" -> SeqPrefix(ev.decs, decs)
+    [] ev.e = "th_conflict" -> SeqPrefix(ev.decs, decs)
     [] ev.e = "next" -> IF decs = <<>> THEN ev.decs = <<>> /\ ev.ret = 0
                         ELSE SeqPrefix(ev.decs, SubSeq(decs, 1, Len(decs) - 1))
     [] OTHER -> ev.decs = decs
@@ -203,7 +204,7 @@ DecsOK(ev) ==
 SeqOfJson(s) == s   \* JSON arrays are already sequences
 
 FalseOnlyIfUnsat(ev, M) ==
-  CASE ev.e \in {"new_clause", "propagate", "simplify_db"} -> ev.ret = 0 => M = {}
+  CASE ev.e \in {"new_clause", "propagate", "simplify_db", "th_conflict"} -> ev.ret = 0 => M = {}
     [] ev.e = "assume" -> ev.ret = 0 => Under(M, Append(decs, ev.p)) = {}
     [] ev.e = "check" -> ev.ret = 0 => Under(M, decs \o ev.lits) = {}
     [] ev.e = "next" -> (ev.ret = 0 /\ decs # <<>>) => M = {}
@@ -257,6 +258,12 @@ Step(ev) ==
      \* C08
      /\ Chk({"C08"}, "DeterminedByAssignedLiterals",
             (ev.stable = 1 /\ ~creation) => \A p \in seen : p[1] = ev.vals => p[2] = key)
+     \* the same decisions, standing again later (clauses are only added in between: learnt ones, no-goods): every literal
+     \* that had a value then has that value now - nothing that followed from these decisions is lost by undoing others.
+     \* (Not with linear-arithmetic atoms: what the simplex propagates depends on its basis.)
+     /\ Chk({"C08"}, "SameDecisionsKeepValues",
+            (ev.stable = 1 /\ ~creation /\ \A a \in S.atoms : a.th # "lra") =>
+               \A p \in seen : p[3] = ev.decs => \A i \in DOMAIN p[1] : p[1][i] # 2 => ev.vals[i] = p[1][i])
      /\ n' = ev.n
      /\ models' = M
      /\ decs' = ev.decs
@@ -266,7 +273,7 @@ Step(ev) ==
      /\ defs' = defs2
      /\ lraVis' = vis2
      /\ seen' = IF creation \/ ev.e = "new_clause" THEN {}
-                ELSE IF ev.stable = 1 THEN seen \cup {<<ev.vals, key>>} ELSE seen
+                ELSE IF ev.stable = 1 THEN seen \cup {<<ev.vals, key, ev.decs>>} ELSE seen
      /\ last' = key
 
 Reset ==
